@@ -366,12 +366,19 @@ fn run_c03(seed: u64, n: usize, oracle_only: bool, out: &mut Out) {
             let root = *r2.pick(&["Thing", "Item", "Box"]);
             let edge = if root == "Thing" { *r2.pick(&["next", "link", "parent"]) } else { *r2.pick(&["up", "next", "peer", "link"]) };
             let d = r2.range(4, 7);
-            let text = format!("query {{ {root} {{ id @output(name: \"r\") {edge} @recurse(depth: {d}) {{ id @output }} }} }}");
+            let text = if r2.chance(1, 2) {
+                format!("query {{ {root} {{ id @output(name: \"r\") {edge} @recurse(depth: {d}) {{ id @output }} }} }}")
+            } else {
+                // string / regex operators whose operand is a TAG of the root vertex (per-context operand values)
+                let op = *r2.pick(&["regex", "not_regex", "has_prefix", "has_substring", "not_has_suffix"]);
+                let e2 = *r2.pick(&["next", "link"]);
+                format!("query {{ {root} {{ id @output(name: \"r\") name @tag(name: \"t\") {e2} {{ name @filter(op: \"{op}\", value: [\"%t\"]) id @output }} }} }}")
+            };
             let indexed = match parse(&schema, &text) {
                 Ok(ix) => ix,
                 Err(_) => continue,
             };
-            out.count("family:deep-recursion");
+            out.count("family:deep-recursion-or-tag-operand");
             EngineCase {
                 dataset: gen_dataset(&mut r2, 10),
                 query_text: text,
@@ -385,6 +392,9 @@ fn run_c03(seed: u64, n: usize, oracle_only: bool, out: &mut Out) {
             out.count(&format!("feat:{f}"));
         }
         let input = case_input_json(&c);
+        // the model's regex oracle table only covers patterns that come from ARGUMENTS; the family's regex
+        // filters take their pattern from a tag, so those worlds are decided by the direct laziness oracle only
+        let skip_tie = i >= n && c.query_text.contains("regex");
         let full = run_impl(&c);
         let rows: Vec<String> = match &full {
             Outcome::Rows(r) => r.iter().map(show_row).collect(),
@@ -395,7 +405,7 @@ fn run_c03(seed: u64, n: usize, oracle_only: bool, out: &mut Out) {
             Outcome::Panic(_) => {
                 // panic-freedom is C09; the model must predict the panic too
                 out.count("outcome:panic");
-                if !oracle_only {
+                if !oracle_only && !skip_tie {
                     out.add(Case {
                         input,
                         coq: format!("run_c03 {}", case_coq_args(&c)),
@@ -532,7 +542,7 @@ fn run_c03(seed: u64, n: usize, oracle_only: bool, out: &mut Out) {
         if counts.iter().any(|x| *x == 0) && counts.iter().any(|x| *x > 1) {
             out.count("shape:some-start-without-rows-and-some-with-several");
         }
-        if !oracle_only {
+        if !oracle_only && !skip_tie {
             let imp = format!("COUNTS:{};NEED:{}", nats(&counts), nats(&obs.pulls));
             out.add(Case {
                 input,
